@@ -1,4 +1,5 @@
 import Cvise.Proofs.DriverStats
+import Cvise.Proofs.DriverWorked
 /-!
 # C20 — the pass statistics report what happened
 
@@ -29,6 +30,14 @@ theorem failed_le_executed (cfg : Cfg) (W : World C) (dn : Sched) (orderOf : Lis
     (LRes.st' (reduce cfg W dn orderOf fuel first main last x)).side.executed p :=
   reduce_failed_le cfg W dn orderOf fuel first main last x h p
 
+/-- "worked" equals the number of accepted transformations, per pass, at the end of every reduction -/
+theorem worked_eq_accepted (cfg : Cfg) (W : World C) (dn : Sched) (orderOf : List C → List Nat) (fuel : Nat)
+    (first main last : List (PassI C σ)) (x : St C) (h : WInv x) (p : Nat) :
+    (LRes.st' (reduce cfg W dn orderOf fuel first main last x)).side.worked p =
+    acceptedOf p (LRes.st' (reduce cfg W dn orderOf fuel first main last x)).side.log :=
+  reduce_worked_eq cfg W dn orderOf fuel first main last x h p
+
 example : StatOK ({ disk := [0] } : St Nat) := fun _ => Nat.le_refl _
+example : WInv ({ disk := [0] } : St Nat) := fun _ => rfl
 
 end Cvise.C20
